@@ -91,6 +91,11 @@ def own_pubrel(F, R, ver):
     takes = [bi for bi, t in rl.calls_to(r'^std::option::Option::<T>::take$')]
     rels = [bi for bi, t in rl.calls_to(r'^%s::shared::MqttShared::release_publish$' % ver)]
     R.ob('C14.own-pubrel', '%s|PublishReceived::release|takes-then-releases-once' % ver, len(takes) == 1 and len(rels) == 1 and rl.must_pass(set(takes), rels[0]), 'release(self) must take the Option before calling release_publish (so Drop does not release again)')
+    gates = [bi for bi, t in rl.calls_to(r'^%s::shared::MqttShared::(wait_readiness|is_ready)$' % ver)]
+    ys_before = [y for y in rl.yields() if rels and rels[0] in rl.reachable_after(y)]
+    R.ob('C14.own-pubrel', '%s|PublishReceived::release|not-gated-by-the-window' % ver, not gates and not ys_before,
+         'release() waits (window / readiness) before writing its PUBREL: the exchange being released already occupies a slot until PUBCOMP, so with a full window every release waits for another exchange and none can complete',
+         rl.loc(gates[0]) if gates else (rl.loc(ys_before[0]) if ys_before else None))
     sig = F.fns.get('%s::sink::PublishReceived::release' % ver, {}).get('sig', '')
     R.ob('C14.own-pubrel', '%s|PublishReceived::release|consumes-self' % ver, re.search(r'fn\(%s::sink::PublishReceived\)' % ver, sig) is not None, 'signature: %s' % sig)
 
@@ -98,7 +103,11 @@ def own_pubrel(F, R, ver):
 def requeue(F, R, ver):
     p = F.one(r'^%s::shared::MqttShared::pkt_ack_inner$' % ver)
     pushes = calls_on_field(p, r'VecDeque::<T, A>::push_back$', 'inflight')
+    fronts = calls_on_field(p, r'VecDeque::<T, A>::(push_front|insert)$', 'inflight')
     R.ob('C14.requeue', '%s|pkt_ack_inner|requeue-sites' % ver, len(pushes) == 1, 'found %d' % len(pushes))
+    R.ob('C14.requeue', '%s|pkt_ack_inner|requeue-at-the-tail' % ver, not fronts,
+         'the entry awaiting PUBCOMP is re-queued at the head of the in-order ack queue: the next acknowledgement of another outstanding send (e.g. the PUBREC of a second exactly-once send) mismatches and the connection is closed',
+         p.loc(fronts[0][0]) if fronts else None)
     for bi, t, ap in pushes:
         og = Origin(p).of_operand(t['args'][1])
         ok_tp = any(l[0] == 'agg' and l[1].endswith('AckType::Complete') for l in og)
